@@ -46,6 +46,9 @@ def check(run):
         C11.single(R)
     tests(R)
     set_(R)
+    with R.as_rule('C12.enter'):
+        C08.client(R)        # closed is set only after the socket is closed: no window with neither flag set
+        C11.private(R)       # no per-session frame object is shared between a sender and a closer
     C08.onlyclose(R, RID='C12.enter')
 
 
